@@ -360,6 +360,33 @@ def shrink(pid, f, work, profile, budget=60):
 
 
 # ---------------------------------------------------------------------------------------
+def refine_block(pid, f, work, profile):
+    """a block digest differs: re-run that block input by input and return the failures
+    (with concrete inputs) that the per-input oracle/correspondence finds"""
+    t = f["case"].split(" | ")[0].split(" ")
+    lines = []
+    if t[0] == "pkgblk":
+        start, count, incl = int(t[1]), int(t[2]), t[3]
+        lines = ["pkglen %d %s" % (n, incl) for n in range(start, start + count)]
+    elif t[0] == "intblk":
+        ty, start, count = t[1], int(t[2]), int(t[3])
+        lines = ["int %s %d" % (ty, v) for v in range(start, start + count)]
+    elif t[0] == "eisablk":
+        i = int(t[1])
+        l = "%c%c%c" % (65 + i // 676, 65 + i // 26 % 26, 65 + i % 26)
+        lines = ["eisa " + (l + "%04X" % d).encode().hex() for d in range(65536)]
+    if not lines:
+        return []
+    pth = os.path.join(work, "refine.cases")
+    open(pth, "w").write("\n".join(lines) + "\n")
+    try:
+        _, fl = run_cases_file(pth, work, "refine", profile)
+    except Violation:
+        return []
+    out = [parse_fline(l) for l in fl]
+    return [x for x in out if pid in x["props"]]
+
+
 def nontrivial(stream, case_line):
     body = case_line.split(" ", 1)[1] if " " in case_line else ""
     if stream in ("pkglen", "pkgblk"):
@@ -490,6 +517,10 @@ def main():
                         for k, f in zip(kfs, fs):
                             known_hits.append((k, f))
                         continue
+                    if any(f["check"] == "block-digest" for f in fs):
+                        more = refine_block(pid, fs[0], work, prof)
+                        if more:
+                            fs = more[:3] + fs
                     props_f = [f for f in fs if f["kind"] == "prop"]
                     cov["oracle_failures_on_impl"] += len(props_f)
                     cov["model_disagreements"] += len([f for f in fs if f["kind"] == "corr"])
